@@ -91,14 +91,20 @@ Planted == UNION {Chain(D) : D \in CanaryDirs} \cup Structured
 -----------------------------------------------------------------------------
 (* parameter kinds                                                           *)
 Kinds == {"key", "bucket", "srcBucket", "srcKey", "prefix", "marker",
-          "versionId", "uploadId", "partNumber", "adminBucket", "adminAccess"}
+          "versionId", "uploadId", "partNumber", "adminBucket", "adminAccess",
+          "versionIdMarker", "uploadIdMarker"}
+\* the parameters of listings: positions and filters, never names of things to open.
+\* The two id markers (version-id-marker, upload-id-marker) are compared with the ids
+\* found under the key marker - an implementation that looked the id up directly
+\* would join it below the key's version / upload directory
+MarkerKinds == {"prefix", "marker", "versionIdMarker", "uploadIdMarker"}
 
 \* the directory under which /repo joins the parameter
 BaseOf(kind) ==
     CASE kind \in {"key", "srcKey", "prefix", "marker"}     -> BktA
       [] kind \in {"bucket", "srcBucket", "adminBucket"}     -> Root
-      [] kind = "versionId"                                  -> VerK
-      [] kind = "uploadId"                                   -> UpK
+      [] kind \in {"versionId", "versionIdMarker"}           -> VerK
+      [] kind \in {"uploadId", "uploadIdMarker"}             -> UpK
       [] kind = "partNumber"                                 -> UpU
       [] kind = "adminAccess"                                -> Iam
 
@@ -107,7 +113,7 @@ BaseOf(kind) ==
 AsIsMode(kind) ==
     CASE kind = "partNumber"             -> "typed"
       [] kind \in {"prefix", "marker"}   -> "validated"
-      [] kind = "adminAccess"            -> "opaque"
+      [] kind \in {"adminAccess", "versionIdMarker", "uploadIdMarker"} -> "opaque"
       [] OTHER                           -> "join"
 
 \* a key: names only, optionally one trailing "/" (directory object)
@@ -125,7 +131,7 @@ WF(kind, b) ==
     \/ CASE kind \in {"key", "srcKey"}       -> PlainKey(b) /\ b[1] # ".sgwtmp"
          [] kind \in {"bucket", "srcBucket"} -> /\ PlainKey(b) /\ b[1] # ".sgwtmp"
                                                 /\ (Len(b) >= 2 => b[2] # ".sgwtmp")
-         [] kind \in {"versionId", "uploadId", "adminBucket"} -> Len(b) = 1 /\ IsName(b[1])
+         [] kind \in {"versionId", "uploadId", "adminBucket", "versionIdMarker", "uploadIdMarker"} -> Len(b) = 1 /\ IsName(b[1])
          [] kind = "partNumber"              -> b = <<"1">>
          [] kind \in {"prefix", "marker"}    -> PlainKey(b) /\ b[1] # ".sgwtmp"
          [] kind = "adminAccess"             -> Len(b) = 1 /\ IsName(b[1])
@@ -181,7 +187,7 @@ ReadRoots(kind, route, b) ==
                                (IF WF(kind, b) THEN ObjStorage("A", NamesOf(b), SelfVer, "shaS") ELSE {})
       [] kind = "srcBucket" -> ChangeRoots(kind, b) \cup (IF WF(kind, b) /\ b # <<"">> THEN NamedByPath(b) ELSE {})
       [] kind = "bucket" /\ b = <<"">> -> {Root}      \* ListBuckets: the names of the buckets
-      [] kind \in {"prefix", "marker"} ->
+      [] kind \in MarkerKinds ->
               IF route = "list-uploads" THEN {Mp}
               ELSE IF route = "list-versions" THEN {BktA, Vers \o <<"A">>}
               ELSE {BktA}
@@ -228,7 +234,7 @@ AllowedEffect(kind, b, loc, eff) ==
 ReadAllowed(kind, route, b, loc) ==
     /\ InRoots(ReadRoots(kind, route, b), loc)
     \* a listing never reveals the bucket's internal directory
-    /\ ~(kind \in {"prefix", "marker"} /\ route # "list-uploads" /\ IsPrefix(Tmp, loc))
+    /\ ~(kind \in MarkerKinds /\ route # "list-uploads" /\ IsPrefix(Tmp, loc))
     \* the service listing reveals bucket names only
     /\ (kind = "bucket" /\ b = <<"">> => Len(loc) = Len(Root) + 1)
 
@@ -238,7 +244,7 @@ ReadAllowed(kind, route, b, loc) ==
 InScope(kind, b, loc) ==
     \E rt \in {"any", "list-uploads", "list-versions"} :
         /\ \E r \in ChangeRoots(kind, b) \cup ReadRoots(kind, rt, b) : IsPrefix(r, loc)
-        /\ ~(kind \in {"prefix", "marker"} /\ rt # "list-uploads" /\ IsPrefix(Tmp, loc))
+        /\ ~(kind \in MarkerKinds /\ rt # "list-uploads" /\ IsPrefix(Tmp, loc))
 
 -----------------------------------------------------------------------------
 (* escape target classes                                                     *)
